@@ -131,7 +131,7 @@ PROPS = {
                                           "counts for C09 only if the same program and schedule with every SetVersion removed and initial version 0 is clean"]},
     "C10": {"kinds": ["GAP", "EXCLUSION-CONV"], "stages": lock_stages("C10", 8000, 60000), "assumptions": LOCK_ASSUME},
     "C11": {"kinds": ["ORDER"], "stages": lock_stages("C11", 8000, 60000), "assumptions": LOCK_ASSUME},
-    "C12": {"kinds": ["LEAK", "NODE_BOUND", "CRASH-UAF"], "stages": lock_stages("C12", 8000, 60000), "assumptions": LOCK_ASSUME},
+    "C12": {"kinds": ["LEAK", "NODE_BOUND", "STALE-NODE", "CRASH-UAF"], "stages": lock_stages("C12", 8000, 60000), "assumptions": LOCK_ASSUME},
     "C05": {"kinds": ["IDRANGE", "IDSTABLE", "IDUNIQUE"], "stages": thread_stages("C05", [1, 2, 3, 4, 8], 500, [1, 2, 3, 4, 8], 5000),
             "assumptions": THREAD_ASSUME},
     "C14": {"kinds": ["STUCK", "FINAL_BUSY", "ID-STARVE"], "stages": thread_stages("C14", [1, 2, 3, 4, 8], 500, [1, 2, 3, 4, 8], 5000), "assumptions": THREAD_ASSUME},
